@@ -3,7 +3,8 @@
    Model: theories/Ons.v (the run* functions of action/ons, data/ons, fee step, session rule). *)
 From Coq Require Import ZArith Ascii String.
 From stdpp Require Import gmap list strings.
-From OL Require Import theories.Ons theories.OnsCheck proofs.OnsProofs proofs.OnsInv.
+From OL Require Import theories.Ons theories.OnsCheck proofs.OnsProofs proofs.OnsInv
+  theories.Options gen.Facts_Options.
 Local Open Scope Z_scope.
 Local Open Scope string_scope.
 
@@ -232,3 +233,13 @@ Example C20_nonvacuous :
   getbal (bal (deliver s3 t).1) 0%N = getbal (bal s3) 0%N + 20 /\
   getbal (bal (deliver s3 t).1) 1%N = getbal (bal s3) 1%N - 30 - 1.
 Proof. vm_compute. repeat split. Qed.
+
+(* tie to the source (regenerated on every run): the model prices every transaction with the ONS options AS
+   PERSISTED in the state the transaction runs on (an input of every step).  The domain store also holds a copy
+   of those options in memory; no handler of action/ons (nor any other transaction path) reads it — the only
+   callers of DomainStore.GetOptions are start-up functions — so what the copy holds cannot enter a price or
+   an expiry (theories/Options.v: an unread copy is invisible). *)
+Theorem C20_fact_prices_from_persisted_options :
+  filter (fun '(a, c) => String.prefix "data/ons.DomainStore." a) (unaudited_calls option_accessor_calls) = [] /\
+  filter (fun '(f, fn) => String.prefix "data/ons.DomainStore." f) (foreign_uses option_field_uses) = [].
+Proof. vm_compute. split; reflexivity. Qed.
